@@ -152,7 +152,8 @@ let run_vars (p : sexp) : string =
       let consts = List.map (function A n -> intern n | _ -> failwith "const") cs in
       let funcs = List.map var_func fs in
       "model=" ^ codes_to_string (VarScope.an_program consts funcs) ^
-      " spec=" ^ codes_to_string (VarScope.spec_program consts funcs)
+      " spec=" ^ codes_to_string (VarScope.spec_program consts funcs) ^
+      " once=" ^ (if VarScopeProofs.once [] (VarScopeProofs.events funcs) then "true" else "false")
   | _ -> failwith "prog"
 
 let dispatch (stream : string) (x : sexp) : string =
